@@ -1,6 +1,6 @@
 (** C17 — generation succeeds and compiles for every supported schema and config (PARTIAL: the theorems carry the
     collision-free naming registry; that generation finishes and its output type-checks is exercised, not proved). *)
-From GV Require Import Base.Prelude Model.Naming Proofs.NamingProofs Corr.Corr_C17.
+From GV Require Import Base.Prelude Model.Naming Model.ToGo Proofs.NamingProofs Proofs.ToGoProofs Corr.Corr_C17.
 Open Scope string_scope.
 Open Scope list_scope.
 
@@ -31,9 +31,38 @@ Theorem C17_numbering_total : forall num, (forall i j, num i = num j -> i = j) -
 Proof. intros num Hinj reg base. now apply numbering_total_lemma. Qed.
 Print Assumptions C17_numbering_total.
 
+(** The word-level functions (wordWalker, ToGo, ToGoPrivate, sanitizeKeywords, modelled on ASCII text): for EVERY
+    name made of letters, digits and underscores - Go keywords and predeclared names, initialisms, leading, trailing
+    and embedded underscores included - whose first character that is not an underscore is a letter, ToGo returns an
+    exported Go identifier and ToGoPrivate a Go identifier that is not a keyword. *)
+Theorem C17_to_go_valid : forall s,
+  forallb name_char s = true -> letter_first s = true -> go_ident (to_go_c s) = true /\ exported (to_go_c s) = true.
+Proof. exact to_go_valid_lemma. Qed.
+Print Assumptions C17_to_go_valid.
+Theorem C17_to_go_private_valid : forall s,
+  forallb name_char s = true -> letter_first s = true ->
+  go_ident (to_go_private_c s) = true /\ is_keyword (to_go_private_c s) = false.
+Proof. exact to_go_private_valid_lemma. Qed.
+Print Assumptions C17_to_go_private_valid.
+(** and for every such text at all, the results contain nothing but letters, digits and underscores *)
+Theorem C17_to_go_chars : forall s, forallb name_char s = true ->
+  forallb name_char (to_go_c s) = true /\ forallb name_char (to_go_private_c s) = true.
+Proof. intros s H. split; [now apply to_go_chars_lemma|now apply to_go_private_chars_lemma]. Qed.
+Print Assumptions C17_to_go_chars.
+(** Without the side condition the statement is false of the code (kept finding): the GraphQL name _1 *)
+Theorem C17_to_go_digit_first_refuted :
+  graphql_name (cs "_1") = true /\ to_go "_1" = "1" /\ to_go_private "_1" = "1" /\ go_ident (cs "1") = false.
+Proof. vm_compute. repeat split; reflexivity. Qed.
+Print Assumptions C17_to_go_digit_first_refuted.
+
 (** Non-vacuity: three entities normalising to FooBar get three names; asking again returns the same one. *)
 Example C17_nonvacuous :
   let go (s : string) := if String.eqb s "foo_bar" || String.eqb s "fooBar" || String.eqb s "FooBar" then "FooBar" else s in
   snd (run_calls go go (fun s => s) num [] [(false, ["foo_bar"]); (false, ["fooBar"]); (false, ["FooBar"]); (false, ["fooBar"])])
   = [Some "FooBar"; Some "FooBar0"; Some "FooBar1"; Some "FooBar0"].
 Proof. vm_compute. reflexivity. Qed.
+Example C17_to_go_nonvacuous :
+  map (fun s => (to_go s, to_go_private s)) ["type"; "user_id"; "HTTPServer"; "_leading"; "a_1_2"; "IDFoo"]
+  = [("Type", "typeArg"); ("UserID", "userID"); ("HTTPServer", "httpServer"); ("Leading", "leading"); ("A1_2", "a1_2"); ("IDFoo", "idFoo")]
+  /\ forallb (fun s => forallb name_char (cs s) && letter_first (cs s)) ["type"; "user_id"; "HTTPServer"; "_leading"; "a_1_2"; "IDFoo"] = true.
+Proof. vm_compute. split; reflexivity. Qed.
